@@ -63,6 +63,7 @@ pub fn catch<R>(f: impl FnOnce() -> R) -> Result<R, String> {
 pub struct Shard {
     pub cases: BufWriter<File>,
     pub imp: BufWriter<File>,
+    pub meta: Option<BufWriter<File>>,
     pub n: u64,
 }
 
@@ -70,7 +71,7 @@ impl Shard {
     pub fn create(dir: &str, comp: &str, k: usize) -> Shard {
         let c = File::create(format!("{}/{}.cases.{}.txt", dir, comp, k)).unwrap();
         let i = File::create(format!("{}/{}.impl.{}.txt", dir, comp, k)).unwrap();
-        Shard { cases: BufWriter::with_capacity(1 << 20, c), imp: BufWriter::with_capacity(1 << 20, i), n: 0 }
+        Shard { cases: BufWriter::with_capacity(1 << 20, c), imp: BufWriter::with_capacity(1 << 20, i), meta: None, n: 0 }
     }
     pub fn put(&mut self, comp: &str, input: &[u64], output: &[u64]) {
         let mut s = String::with_capacity(16 + input.len() * 4);
@@ -92,9 +93,17 @@ impl Shard {
         self.imp.write_all(o.as_bytes()).unwrap();
         self.n += 1;
     }
+    pub fn with_meta(mut self, dir: &str, comp: &str, k: usize) -> Shard {
+        let m = File::create(format!("{}/{}.meta.{}.txt", dir, comp, k)).unwrap();
+        self.meta = Some(BufWriter::with_capacity(1 << 16, m));
+        self
+    }
     pub fn finish(mut self) -> u64 {
         self.cases.flush().unwrap();
         self.imp.flush().unwrap();
+        if let Some(m) = self.meta.as_mut() {
+            m.flush().unwrap();
+        }
         self.n
     }
 }
